@@ -224,7 +224,7 @@ fn run_encb<B: Buffer>(p: &[u8]) -> String {
 fn run_enci(k: usize, p: &[u8]) -> String {
     let mut it = encode_streaming(p);
     let mut bytes = Vec::new();
-    let lim = 2 * p.len() + 32;
+    let lim = 5 * p.len() + 32;
     let mut n = 0;
     loop {
         if n >= lim {
